@@ -242,17 +242,39 @@ Definition erase (we : wevent) : list event :=
    task statuses in memory at quiescence and in the payload whose write completed last *)
 (* [unpersisted]: how often a goroutine that had modified the state and released the lock (through Unlock or through Unlocker)
    found that no completed write contained its modification *)
+(* [retries]: for every Checkpoint call the Backend made fail, the marker of the failed payload and the marker of the next
+   write that completed: Unlock retries the SAME payload with the lock still held, nobody else gets in between *)
 Inductive ocase := OCase (locked : list bool) (completed : list N) (newest : N) (mem_statuses last_statuses : list (N * N))
-                         (unpersisted : N).
+                         (unpersisted : N) (retries : list (N * N)).
 
 Fixpoint increasing (lo : N) (l : list N) : bool :=
   match l with [] => true | x :: r => (lo <=? x) && increasing x r end.
 Definition omonitor_fail (k : ocase) : bool :=
   match k with
-  | OCase locked completed newest mem_sts last_sts unpersisted =>
+  | OCase locked completed newest mem_sts last_sts unpersisted retries =>
       negb (forallb (fun b => b) locked                       (* every checkpoint is written with the state lock held *)
             && increasing 0 completed                         (* writes complete in the order of the unlocks *)
             && (last completed 0 =? newest)                   (* the last completed write is the newest state *)
             && plist_eqb mem_sts last_sts                     (* ... and shows the statuses that are in memory *)
-            && (unpersisted =? 0))                            (* a release after a modification has checkpointed it *)
+            && (unpersisted =? 0)                             (* a release after a modification has checkpointed it *)
+            && forallb (fun r => fst r =? snd r) retries)     (* a failed checkpoint is retried before anything else is written *)
   end.
+
+(* ---- checkpoint failure and retry. State.Unlock keeps the state lock while it retries a failing Backend.Checkpoint
+   (every 3 s, for 5 minutes): memory is then one step ahead of the store and nothing else can touch the state.
+   [CStep e true]  a runner step whose checkpoint succeeds at once;
+   [CStep e false] a runner step whose checkpoint is failing: the unlock has not returned, the lock is held ([c_dirty]);
+   [CRetry]        the retry succeeds; [CCrash] the process dies: whatever the store holds is reloaded. *)
+Record cworld := mkC { c_mem : st; c_disk : list task; c_dirty : bool }.
+Inductive cevent := CStep (e : event) (written : bool) | CRetry | CCrash.
+Definition cstep (c : cfg) (w : cworld) (ce : cevent) : cworld :=
+  match ce with
+  | CStep ERestart _ => w
+  | CStep e written =>
+      if c_dirty w then w                                  (* the lock is held by the unlock that is still retrying *)
+      else let m := step c (c_mem w) e in
+           if written then mkC m (tasks m) false else mkC m (c_disk w) true
+  | CRetry => if c_dirty w then mkC (c_mem w) (tasks (c_mem w)) false else w
+  | CCrash => mkC (reload (c_disk w) (log (c_mem w))) (c_disk w) false
+  end.
+Definition crun (c : cfg) (w : cworld) (evs : list cevent) : cworld := fold_left (cstep c) evs w.
